@@ -578,6 +578,30 @@ func runCaseInner(c Case, o *kit.Obs) *kit.Failure {
 		}
 		o.Class("missing-key")
 	}
+	// 4b. no decryption configuration at all: an error (encrypted footer), never a panic,
+	// whatever the reader is told about the magic bytes and whatever the header claims
+	for vi, variant := range []string{"default", "SkipMagicBytes", "header magic PAR1"} {
+		in := data
+		var fo []parquet.FileOption
+		switch vi {
+		case 1:
+			fo = append(fo, parquet.SkipMagicBytes(true))
+		case 2:
+			in = append([]byte("PAR1"), data[4:]...)
+		}
+		var oerr error
+		var p any
+		func() {
+			defer func() { p = recover() }()
+			_, oerr = parquet.OpenFile(bytes.NewReader(in), int64(len(in)), fo...)
+		}()
+		if p != nil {
+			return kit.Failf("c18/no-config-panic"+feat, "OpenFile without a decryption configuration (%s): panic: %v", variant, p)
+		}
+		if c.EncFooter && oerr == nil {
+			return kit.Failf("c18/no-config-accepted"+feat, "OpenFile without a decryption configuration (%s) opened a file with an encrypted footer", variant)
+		}
+	}
 	if c.Wrong != "" {
 		bad := keyRing{footer: ring.footer, columns: map[string][]byte{}}
 		for p, k := range ring.columns {
